@@ -17,7 +17,7 @@ contract("AbsoluteSequence.to_relative_sequence", params={"self": "ref:AbsoluteS
              ("wf_rel", WF_REL(R)),
              ("waits_positive", f"forall(0, len({R}), lambda j: implies({IS(R + '[j]', 'WAIT')}, {R}[j].time > 0))"),
              ("events_untimed", f"forall(0, len({R}), lambda j: implies(not {IS(R + '[j]', 'WAIT')}, is_none({R}[j].time) and not {IS(R + '[j]', 'INTERNAL')}))"),
-             ("source_sorted", f"len({M}) == old(len({M})) and {SORTED()} and {WF_ABS()}"),
+             ("source_kept", f"len({M}) == old(len({M})) and {WF_ABS()}"),
          ],
          loops={"L0": dict(fingerprint="for msg in self._messages", inv=[
              ("out_fresh", f"fresh(relative_sequence) and fresh({RS}) and {RS} != {M} and {FRESH_LIST(RS)}"),
